@@ -314,3 +314,268 @@ def run_dataset(ds, configs):
 def cleanup_all():
     for d in glob.glob(os.path.join(core.BUILD, "C16_tmp_*")):
         shutil.rmtree(d, ignore_errors=True)
+
+
+# ------------------------------------------------------------------------------------------------
+# Coq literals
+# ------------------------------------------------------------------------------------------------
+def _cq(q):       # exact rational unit quaternion (w, x, y, z, n) -> mkQuat
+    return "(mkQuat " + " ".join(qlit(Fraction(q[i], q[4])) for i in range(4)) + ")"
+
+
+def _cv(v):       # eighths -> mkVec
+    return "(mkVec " + " ".join(qlit(Fraction(x, 8)) for x in v) + ")"
+
+
+def _cz(n):
+    return f"({int(n)})%Z"
+
+
+def coq_dataset(ds):
+    S = llit([f"mkSample {slit(s['token'])} {_cz(s['timestamp'])} {slit(s['prev'])} {slit(s['next'])}" for s in ds["samples"]])
+    SD = llit([f"mkSD {slit(d['token'])} {slit(d['sample'])} {slit(d['ego'])} {slit(d['cs'])} {blit(d['key'])}" for d in ds["sample_data"]])
+    E = llit([f"mkEgo {slit(e['token'])} {_cq(e['q'])} {_cv(e['t'])}" for e in ds["ego_pose"]])
+    C = llit([f"mkCS {slit(c['token'])} {slit(c['sensor'])} {_cq(c['q'])} {_cv(c['t'])}" for c in ds["calibrated_sensor"]])
+    SN = llit([f"mkSensor {slit(s['token'])} {slit(s['channel'])} {slit(s['modality'])}" for s in ds["sensor"]])
+    A = llit([f"mkAnn {slit(a['token'])} {slit(a['sample'])} {slit(a['instance'])} {slit(a['vis'])} {llit([slit(t) for t in a['attrs']])} "
+              f"{_cv(a['t'])} {_cv(a['size'])} {_cq(a['q'])} {slit(a['prev'])} {slit(a['next'])} {_cz(a['pts'])}" for a in ds["ann"]])
+    I = llit([f"mkInst {slit(i['token'])} {slit(i['category'])}" for i in ds["instance"]])
+    CT = llit([f"mkCat {slit(c['token'])} {slit(c['name'])}" for c in ds["category"]])
+    AT = llit([f"mkAttr {slit(a['token'])} {slit(a['name'])}" for a in ds["attribute"]])
+    V = llit([f"mkVis {slit(v['token'])} {slit(v['level'])}" for v in ds["visibility"]])
+    return f"(mkDataset\n {S}\n {SD}\n {E}\n {C}\n {SN}\n {A}\n {I}\n {CT}\n {AT}\n {V})"
+
+
+def _ql(xs):
+    return llit([qlit(x) for x in xs])
+
+
+def _cvis(v):
+    if v is None:
+        return "None"
+    if v.startswith("str:"):
+        return f"(Some (KeyStr {slit(v[4:])}))"
+    return f"(Some (Member {slit(v)}))"
+
+
+def coq_obs(o):
+    if "error" in o:
+        kind = o["error"] if o["error"] in ("KeyError", "ValueError", "DatasetLoadingError") else "Unmodelled"
+        return f"(OError {kind})"
+    frames = []
+    for fr in o["frames"]:
+        objs = []
+        for ob in fr["objects"]:
+            hist = "None" if ob["hist"] is None else \
+                "(Some " + llit([f"mkOPast {_ql(h['pos'])} {_ql(h['ori'])} {_ql(h['size'])}" for h in ob["hist"]]) + ")"
+            objs.append(f"mkOObj {slit(ob['uuid'])} {slit(ob['label'])} {slit(ob['name'])} {llit([slit(a) for a in ob['attrs']])} "
+                        f"{_ql(ob['size'])} {_cz(ob['pts'])} {_cvis(ob['vis'])} {_ql(ob['pos'])} {_ql(ob['ori'])} {_cz(ob['unix_time'])} "
+                        f"{slit(ob['frame_id'])} {hist}")
+        mat = fr["ego2map"]["matrix"] if fr["ego2map"] else []
+        tfs = llit([f"mkORigid {_ql(t['pos'])} {_ql(t['rot'])} {slit(t['src'])} {slit(t['dst'])}" for t in fr["transforms"]])
+        frames.append(f"mkOFrame {_cz(fr['unix_time'])} {slit(fr['frame_name'])} {llit(objs)} {_ql(mat)} {tfs}")
+    return "(OFrames " + llit(frames) + ")"
+
+
+COQ_TASK = {"detection": "Detection", "tracking": "Tracking", "sensing": "Sensing"}
+COQ_FRAME = {"base_link": "BaseLink", "map": "MapFrame"}
+
+
+# ------------------------------------------------------------------------------------------------
+# the property, stated directly against the generator's tables (exact rational arithmetic)
+# ------------------------------------------------------------------------------------------------
+# documented label of the names the generator uses (label.py's table / its docstring on merging);
+# value = (label without merging, label with merging)
+EXPECT_LABEL = {
+    "car": ("CAR", "CAR"), "vehicle.car": ("CAR", "CAR"), "pedestrian.adult": ("PEDESTRIAN", "PEDESTRIAN"),
+    "pedestrian": ("PEDESTRIAN", "PEDESTRIAN"), "bicycle": ("BICYCLE", "BICYCLE"), "vehicle.bicycle": ("BICYCLE", "BICYCLE"),
+    "truck": ("TRUCK", "CAR"), "vehicle.truck": ("TRUCK", "CAR"), "trailer": ("TRUCK", "CAR"), "bus": ("BUS", "CAR"),
+    "vehicle.bus": ("BUS", "CAR"), "motorbike": ("MOTORBIKE", "BICYCLE"), "vehicle.motorcycle": ("MOTORBIKE", "BICYCLE"),
+    "animal": ("UNKNOWN", "UNKNOWN"), "unknown": ("UNKNOWN", "UNKNOWN"), "movable_object.barrier": ("UNKNOWN", "UNKNOWN"),
+}
+
+
+def expected_label(name, merge):
+    return EXPECT_LABEL.get(name.lower(), ("UNKNOWN", "UNKNOWN"))[1 if merge else 0]
+
+
+def expected_visibility(level):
+    if level in VIS_MEMBERS:
+        return VIS_MEMBERS[level]
+    return VIS_ALIASES.get(level, "UNAVAILABLE")
+
+
+def fq(q):
+    return [Fraction(q[i], q[4]) for i in range(4)]
+
+
+def fv(v):
+    return [Fraction(x, 8) for x in v]
+
+
+def qmul(a, b):
+    aw, ax, ay, az = a
+    bw, bx, by, bz = b
+    return [aw * bw - ax * bx - ay * by - az * bz, aw * bx + ax * bw + ay * bz - az * by,
+            aw * by - ax * bz + ay * bw + az * bx, aw * bz + ax * by - ay * bx + az * bw]
+
+
+def qconj(q):
+    return [q[0], -q[1], -q[2], -q[3]]
+
+
+def rotm(q):
+    w, x, y, z = q
+    return [[w * w + x * x - y * y - z * z, 2 * (x * y - w * z), 2 * (x * z + w * y)],
+            [2 * (x * y + w * z), w * w - x * x + y * y - z * z, 2 * (y * z - w * x)],
+            [2 * (x * z - w * y), 2 * (y * z + w * x), w * w - x * x - y * y + z * z]]
+
+
+def rotv(q, v):
+    R = rotm(q)
+    return [sum(R[i][j] * v[j] for j in range(3)) for i in range(3)]
+
+
+def vsub(a, b):
+    return [x - y for x, y in zip(a, b)]
+
+
+def vadd(a, b):
+    return [x + y for x, y in zip(a, b)]
+
+
+def close(a, b, tol=TOL):
+    return len(a) == len(b) and all(abs(Fraction(x) - Fraction(y)) <= Fraction(tol) for x, y in zip(a, b))
+
+
+def same_rotation(qa, qb, tol=TOL):
+    """orientations compared as rotations: q and -q are the same"""
+    return close(qa, qb, tol) or close(qa, [-x for x in qb], tol)
+
+
+def lidar_records(ds, sample_tok):
+    """(ego pose, calibration) of the sample's lidar key frame: LIDAR_TOP if the sample has one, else LIDAR_CONCAT"""
+    sensor = {s["token"]: s for s in ds["sensor"]}
+    cs = {c["token"]: c for c in ds["calibrated_sensor"]}
+    ego = {e["token"]: e for e in ds["ego_pose"]}
+    for chan in ("LIDAR_TOP", "LIDAR_CONCAT"):
+        hit = [d for d in ds["sample_data"] if d["key"] and d["sample"] == sample_tok and sensor[cs[d["cs"]]["sensor"]]["channel"] == chan]
+        if hit:
+            return ego[hit[-1]["ego"]], cs[hit[-1]["cs"]]
+    return None
+
+
+def oracle_config(ds, task, frame, merge, o):
+    if "error" in o:
+        return f"loading a well-formed dataset failed with {o['error']}"
+    frames = o["frames"]
+    if len(frames) != len(ds["samples"]):
+        return f"{len(frames)} frames for {len(ds['samples'])} samples"
+    cat = {c["token"]: c["name"] for c in ds["category"]}
+    inst = {i["token"]: i for i in ds["instance"]}
+    attr = {a["token"]: a["name"] for a in ds["attribute"]}
+    vis = {v["token"]: v["level"] for v in ds["visibility"]}
+    stime = {s["token"]: s["timestamp"] for s in ds["samples"]}
+    for i, (s, fr) in enumerate(zip(ds["samples"], frames)):
+        w = f"frame {i}"
+        if fr["unix_time"] != s["timestamp"]:
+            return f"{w}: unix_time {fr['unix_time']} is not the timestamp {s['timestamp']} of sample {i} in dataset order"
+        if fr["frame_name"] != str(i):
+            return f"{w}: frame_name {fr['frame_name']!r}"
+        anns = [a for a in ds["ann"] if a["sample"] == s["token"]]
+        if len(fr["objects"]) != len(anns):
+            return f"{w}: {len(fr['objects'])} objects for {len(anns)} annotations"
+        rec = lidar_records(ds, s["token"])
+        ego, cs = rec
+        qe, te, qc, tc = fq(ego["q"]), fv(ego["t"]), fq(cs["q"]), fv(cs["t"])
+        # the stored ego-to-map transform is the ego pose of the lidar key frame
+        tf = fr["ego2map"]
+        if tf is None:
+            return f"{w}: no BASE_LINK->MAP transform stored"
+        R = rotm(qe)
+        want = [R[0][0], R[0][1], R[0][2], te[0], R[1][0], R[1][1], R[1][2], te[1], R[2][0], R[2][1], R[2][2], te[2], 0, 0, 0, 1]
+        if tf["src"] != "BASE_LINK" or tf["dst"] != "MAP" or not close(tf["matrix"], want) or not close(tf["pos"], te) \
+                or not same_rotation(tf["rot"], qe):
+            return f"{w}: the stored BASE_LINK->MAP transform is not the ego pose {ego['token']} of the lidar key frame"
+        for j, (a, ob) in enumerate(zip(anns, fr["objects"])):
+            w = f"frame {i} object {j} (annotation {a['token']})"
+            if ob["uuid"] != a["instance"]:
+                return f"{w}: uuid {ob['uuid']} is not the instance token {a['instance']}"
+            name = cat[inst[a["instance"]]["category"]]
+            if ob["label"] != expected_label(name, merge) or ob["label_type"] != "AutowareLabel":
+                return f"{w}: label {ob['label']} for category {name!r} with merge={merge}, expected {expected_label(name, merge)}"
+            if ob["name"] != name:
+                return f"{w}: label keeps name {ob['name']!r}, category is {name!r}"
+            if ob["attrs"] != [attr[t] for t in a["attrs"]]:
+                return f"{w}: attributes {ob['attrs']} but annotated {[attr[t] for t in a['attrs']]}"
+            if ob["size"] != _vf(a["size"]) or ob["shape"] != "BOUNDING_BOX":
+                return f"{w}: size {ob['size']} but annotated (w, l, h) = {_vf(a['size'])}"
+            wl = [[a["size"][1] / 16, a["size"][0] / 16], [-a["size"][1] / 16, a["size"][0] / 16],
+                  [-a["size"][1] / 16, -a["size"][0] / 16], [a["size"][1] / 16, -a["size"][0] / 16]]
+            if sorted(map(tuple, ob["footprint"][:4])) != sorted(map(tuple, wl)):
+                return f"{w}: footprint {ob['footprint']} is not length x width = {a['size'][1] / 8} x {a['size'][0] / 8}"
+            if ob["pts"] != a["pts"]:
+                return f"{w}: pointcloud_num {ob['pts']} but num_lidar_pts {a['pts']}"
+            want_vis = expected_visibility(vis[a["vis"]]) if ds["visibility"] else None
+            if ob["vis"] != want_vis:
+                return f"{w}: visibility {ob['vis']} but level {vis.get(a['vis'])!r} means {want_vis}"
+            if ob["unix_time"] != s["timestamp"] or ob["frame_id"] != frame.upper() or ob["score"] != 1.0:
+                return f"{w}: unix_time/frame_id/score = {ob['unix_time']}/{ob['frame_id']}/{ob['score']}"
+            p, q = fv(a["t"]), fq(a["q"])
+            if frame == "map":
+                if ob["pos"] != _vf(a["t"]) or not same_rotation(ob["ori"], q):
+                    return f"{w}: map-frame pose {ob['pos']} {ob['ori']} is not the annotated global pose {_vf(a['t'])} {_qf(a['q'])}"
+            else:
+                pe = rotv(qconj(qe), vsub(p, te))
+                oe = qmul(qconj(qe), q)
+                ps = rotv(qconj(qc), vsub(pe, tc))
+                os_ = qmul(qconj(qc), oe)
+                if not close(ob["pos"], ps) or not same_rotation(ob["ori"], os_):
+                    how = "inverse ego pose" + ("" if (qc, tc) == ([1, 0, 0, 0], [0, 0, 0]) else " and inverse lidar calibration")
+                    return (f"{w}: base_link pose {ob['pos']} {ob['ori']} is not the annotated pose moved by the {how}: "
+                            f"{[float(x) for x in ps]} {[float(x) for x in os_]}")
+                # the stored transform (with the lidar calibration, if any) maps the loaded pose back onto the annotated one
+                mp = [Fraction(x) for x in ob["pos"]]
+                mo = [Fraction(x) for x in ob["ori"]]
+                M = [Fraction(x) for x in tf["matrix"]]
+                mp = vadd(rotv(qc, mp), tc)
+                back = [M[0] * mp[0] + M[1] * mp[1] + M[2] * mp[2] + M[3], M[4] * mp[0] + M[5] * mp[1] + M[6] * mp[2] + M[7],
+                        M[8] * mp[0] + M[9] * mp[1] + M[10] * mp[2] + M[11]]
+                bo = qmul([Fraction(x) for x in tf["rot"]], qmul(qc, mo))
+                if not close(back, p, 1e-8) or not same_rotation(bo, q, 1e-8):
+                    return f"{w}: the stored ego-to-map transform maps the loaded pose to {[float(x) for x in back]}, annotated {_vf(a['t'])}"
+            # tracking history
+            if task != "tracking":
+                if ob["hist"] is not None:
+                    return f"{w}: a {task} object carries a tracked path"
+                continue
+            if ob["hist"] is None:
+                return f"{w}: a tracking object carries no tracked path"
+            earlier = sorted([b for b in ds["ann"] if b["instance"] == a["instance"] and stime[b["sample"]] < s["timestamp"]],
+                             key=lambda b: -stime[b["sample"]])
+            past = []
+            for b in earlier:
+                if s["timestamp"] - stime[b["sample"]] >= WINDOW_US or len(past) >= MAX_HISTORY:
+                    break
+                past.append(b)
+            if len(ob["hist"]) != len(past):
+                return f"{w}: history of {len(ob['hist'])} poses, but the instance has {len(past)} annotations in the preceding 3.15 s (max 6)"
+            for k, (b, h) in enumerate(zip(past, ob["hist"])):
+                if h["pos"] != _vf(b["t"]) or not same_rotation(h["ori"], fq(b["q"])) or h["size"] != _vf(b["size"]):
+                    return f"{w}: history entry {k} {h} is not the pose annotated by {b['token']} in the {k + 1}-th preceding sample of the instance"
+    return None
+
+
+def cross_frame(ds, configs, obs):
+    """the same dataset loaded in both frames: same frames, ids, labels in the same order"""
+    by = {}
+    for (t, f, m), o in zip(configs, obs):
+        if "error" not in o:
+            by.setdefault(f, []).append(o)
+    if "map" in by and "base_link" in by:
+        a, b = by["map"][0]["frames"], by["base_link"][0]["frames"]
+        if [[o["uuid"] for o in fr["objects"]] for fr in a] != [[o["uuid"] for o in fr["objects"]] for fr in b]:
+            return "the map-frame and the base_link-frame load disagree on the objects of a frame"
+        if [fr["ego2map"] for fr in a] != [fr["ego2map"] for fr in b]:
+            return "the map-frame and the base_link-frame load store different ego-to-map transforms"
+    return None
